@@ -300,8 +300,10 @@ impl DynamicTable {
 
         let required = self.max_size - size;
 
-        if let Some(to_evict) = self.can_free(required)? {
-            self.evict(to_evict)?;
+        match self.can_free(required)? {
+            Some(to_evict) => self.evict(to_evict)?,
+            // entries that would have to go are still referenced
+            None => return Err(Error::MaxTableSizeReached),
         }
 
         self.max_size = size;
